@@ -687,7 +687,11 @@ func checkQoSRuleRoundTrip(w *World, r *Report) {
 		return out
 	}
 	for op := 1; op <= 6; op++ {
-		for _, nf := range []int{0, 2} {
+		nfs := []int{0, 2}
+		if op == 1 {
+			nfs = append(nfs, 15) // the largest count the four-bit field holds
+		}
+		for _, nf := range nfs {
 			r.Site("rule.roundtrip")
 			what := fmt.Sprintf("operation %d, %d packet filters", op, nf)
 			it := NewInterp(w)
@@ -815,7 +819,7 @@ func checkQoSRuleRoundTrip(w *World, r *Report) {
 			}
 		}
 	}
-	r.Expect("rule.roundtrip", 12)
+	r.Expect("rule.roundtrip", 13)
 }
 
 
